@@ -149,7 +149,38 @@ func (e *Engine) specType(name string, se *SpecEnv) types.Type {
 	panic(unsupported("unknown spec type %q", name))
 }
 
+// lookupName resolves a name; when it is unknown, a variable that was merely renamed since the contract was written
+// (names.go) is found under its new name.
 func (e *Engine) lookupName(name string, se *SpecEnv) (Val, bool) {
+	if v, ok := e.lookupName0(name, se); ok {
+		return v, true
+	}
+	try := func(fn *ssa.Function) (Val, bool) {
+		if fn == nil {
+			return Val{}, false
+		}
+		if nn, ok := aliasesOf(fn)[name]; ok {
+			if v, ok := e.lookupName0(nn, se); ok {
+				e.note("variable %s of %s is called %s now (pure renaming: the contract's name is treated as an alias)", name, fn.Name(), nn)
+				return v, true
+			}
+		}
+		return Val{}, false
+	}
+	for fN := se.frNames; fN != nil; fN = fN.parent {
+		if v, ok := try(fN.fn); ok {
+			return v, true
+		}
+	}
+	for f := se.fr; f != nil; f = f.parent {
+		if v, ok := try(f.fn); ok {
+			return v, true
+		}
+	}
+	return try(e.root)
+}
+
+func (e *Engine) lookupName0(name string, se *SpecEnv) (Val, bool) {
 	if v, ok := se.bound[name]; ok {
 		return v, true
 	}
